@@ -158,6 +158,14 @@ def laws(payload):
                 out.append((key(fn), f"{fn}() -> {s!r}: {bad}"[:300]))
         except Exception as e:  # noqa: BLE001
             out.append((key(fn + "-raises"), f"{type(e).__name__}: {e}"[:300]))
+    # the other random-solution entry point: one coordinate per dimension (its values are not judged here)
+    try:
+        rs = task.random_solution()
+        if len(rs) != dim:
+            out.append((key("random_solution-length"), f"random_solution() has {len(rs)} coordinates, dimension {dim}"))
+    except Exception as e:  # noqa: BLE001
+        if not has_perm:            # bandwidth arithmetic on a permutation's nested bounds is not a documented use
+            out.append((key("random_solution-raises"), f"{type(e).__name__}: {e}"[:300]))
     # correction and decoding
     standalone = [tasks.build_variable(v) for v in vs]
     flat_standalone = [c for v in standalone for c in (v.get() if v.has_children() else [v])]
